@@ -132,7 +132,7 @@ Print Assumptions changes_are_faithful_on_the_current_heap.
    (C09.add_trait_completes_the_registrations), so later changes of the new trait are faithful by the theorem above; the
    add_trait step itself calls the property's handler iff one of its registrations matches the object's trait_added --
    a Property's own graph never does, so the step is faithful only for getters whose view does not depend on whether
-   the optional dependency is defined (candidate finding F24, design.d/C12.md) *)
+   the optional dependency is defined (adjudicated as outside property C12, design.d/C12.md) *)
 Theorem add_trait_is_faithful_iff_matched :
   forall (W : Type) (view : W -> list Z)
          (h hrun : C09.Model.heap) (R : list C09.DynCount.reg) (H : C09.Model.hooks) (s : C09.Model.state)
